@@ -21,7 +21,5 @@ NOT_APPLICABLE = {
            'over the grammar; Verus has no str byte reasoning or iterator-adapter specs, Kani would need an input bound of a few bytes.',
     'C11': 'both Bristol functions interleave File/BufReader/writeln!/str::parse with the wire renumbering; no pure function to put a '
            'contract on, no std::fs/io/fmt specs in Verus, no file-system model in Kani.',
-    'C14': 'every mechanism is out of reach: Env is Vec<BTreeMap<String,T>> (no vstd spec; Kani > 7 min for 4 operations), mux_envs '
-           'iterates BTreeMaps, assignment/scoping/branch merging are arms of compile.',
 
 }
